@@ -266,6 +266,11 @@ func (ts *Time) UnmarshalJSON(data []byte) error {
 	}
 	switch x := v.(type) {
 	case float64:
+		// float64(math.MaxInt64) rounds up to 2^63, which does not fit an int64:
+		// the conversion of such a value is implementation specific (it wraps around).
+		if x >= 1<<63 || x < -(1<<63) {
+			return fmt.Errorf("oidc.Time: value %v out of range", x)
+		}
 		*ts = Time(x)
 	case string:
 		// Compatibility with Auth0:
